@@ -94,13 +94,20 @@ def one(case, pl):
     res = planner.plan_on(mdp)
 
     keys = [s for s in range(n) if s in res.V]
+    returned = []
+    for s in range(n):
+        d = [(a, pr) for a, pr in res.policy.action_dist(s).items() if pr != 0]
+        returned.append(d[0][0] if len(d) == 1 else None)
+    sa = getattr(res, "solved_action", None)
     out = {
         "n": n,
         "touched": [s in res.V for s in range(n)],
         "V": [fj(res.V[s]) for s in range(n)],            # default = heuristic for untouched states
         "solved": [bool(res.solved[s]) for s in range(n)],
         "action_orders": {str(s): list(v) for s, v in res.action_orders.items()},
-        "greedy": {str(s): a for s, a in captured["greedy"].items()},
+        "greedy": {str(s): a for s, a in captured["greedy"].items()},       # recomputed from the FINAL table
+        "returned_action": returned,                                        # what res.policy plays (None: not deterministic)
+        "solved_action": None if sa is None else {str(s): a for s, a in sa.items()},
         "Q": {str(s): {str(a): fj(res.Q[s][a]) for a in mdp.actions(s)} for s in keys},
         "policy": [[[a, fj(p)] for a, p in res.policy.action_dist(s).items()] for s in range(n)],
         "initial_value": fj(res.initial_value),
